@@ -30,18 +30,28 @@ pub fn design(nmax: usize, pmax: usize, f32: bool) -> BoxedStrategy<Mat> {
         .prop_flat_map(move |p| (p + 1..=nmax.max(p + 2), Just(p)))
         .prop_flat_map(move |(n, p)| {
             let lc = if f32 { prop_oneof![Just(0.5), Just(1.0), Just(2.0)].boxed() } else { prop_oneof![3 => Just(1.0), 2 => Just(3.0), 1 => Just(6.0)].boxed() };
-            (lc.prop_flat_map(move |lc| cond_mat(n, p, lc)), vec(pow10(-2, 3), p), vec((unit(), prop::bool::weighted(0.7)), p))
+            (lc.prop_flat_map(move |lc| cond_mat(n, p, lc)), vec(pow10(-2, 3), p), vec((unit(), prop::bool::weighted(0.7)), p), prop::bool::weighted(0.25))
         })
-        .prop_map(move |(x0, scales, shifts)| {
+        .prop_map(move |(x0, scales, shifts, indicator)| {
             // columns of x0 have norm <= 1 over n rows: bring the spread to O(1) first
             // the shift is measured in units of the column's own spread: |mean| / std <= 100 (f32: 4)
             let sd0: Vec<f64> = x0.col_vars(0).iter().map(|v| v.sqrt()).collect();
             let mu0 = x0.col_means();
-            Mat::from_fn(x0.r, x0.c, |i, j| {
+            let mut x = Mat::from_fn(x0.r, x0.c, |i, j| {
                 let sc = if f32 { scales[j].min(100.0).max(0.1) } else { scales[j] };
                 let shift = if shifts[j].1 { shifts[j].0 * if f32 { 4.0 } else { 100.0 } } else { 0.0 };
                 ((x0.at(i, j) - mu0[j]) / sd0[j].max(1e-300) + shift) * sc
-            })
+            });
+            // one design in four carries a 0/1 indicator column (the last one): 1 where the generated value lies
+            // above the column mean; it is non-constant because the generated column is
+            if indicator {
+                let j = x.c - 1;
+                for i in 0..x.r {
+                    let v = if x0.at(i, j) > mu0[j] { 1.0 } else { 0.0 };
+                    x.set(i, j, v);
+                }
+            }
+            x
         })
         .boxed()
 }
@@ -246,7 +256,7 @@ pub fn property() -> Property {
     Property {
         id: "C07",
         quick_mult: 64,
-        rule: "design matrices U diag(s) V^T (cond 10, 1e3 or 1e6; f32: <= 1e2) with 1<=p<=8, p<n<=50 (quick) / 80 (thorough), each column rescaled by 10^[-2,3] and shifted by up to 100 spreads (70% of the columns); targets = linear signal + intercept + noise, pure noise, or (one case in ten) a non-zero constant, at scales 1e-2..1e2; alpha in 1e-3..1e2; both OLS solvers, both ridge solvers, both normalisation settings on every case; fresh rows for predict. non-trivial = p >= 2, a column with |mean| > 0.1 std and cond([X 1]) >= 10; distinct = distinct serialised case",
+        rule: "design matrices U diag(s) V^T (cond 10, 1e3 or 1e6; f32: <= 1e2) with 1<=p<=8, p<n<=50 (quick) / 80 (thorough), each column rescaled by 10^[-2,3] and shifted by up to 100 spreads (70% of the columns); one design in four has a 0/1 indicator as its last column; targets = linear signal + intercept + noise, pure noise, or (one case in ten) a non-zero constant, at scales 1e-2..1e2; alpha in 1e-3..1e2; both OLS solvers, both ridge solvers, both normalisation settings on every case; fresh rows for predict. non-trivial = p >= 2, a column with |mean| > 0.1 std and cond([X 1]) >= 10; distinct = distinct serialised case",
         assumptions: vec![
             format!("residual / gradient bounds are C*eps*n*scale with C = {} and scale = ||A|| (||A|| ||w|| + ||y||)", C),
             "the ridge SVD solver (gradient, agreement with Cholesky) is asserted only where cond(Z^T Z + alpha I) * 64 p eps < 1, i.e. a factor 64 away from the solver's rank cut-off; this excludes f32 cases only (alpha >= 1e-3 bounds the condition number by 1e12)".into(),
